@@ -175,9 +175,10 @@ theorem loop4_eq (k : Int) : ∀ (mf fuel : Nat) (i : Input), WF i → i.remaini
 /-! ### the `//` branch of loop 1 = readComment -/
 
 /-- result of loop 1 on the model side: `ret j` = a comment token was read (readToken returns), `next j` = spaces skipped -/
-def simC (k : Int) : Except SynErr (Ctl Input Input) → M (Ctl (Unit × Generated.Lex.input) Generated.Lex.input)
+def simC (k : Int) (ts : Bytes) :
+    Except SynErr (Ctl Input Input) → M (Ctl (Unit × Generated.Lex.input) Generated.Lex.input)
   | .ok (.ret j) => .ok (.ret ((), emb j))
-  | .ok (.next j) => .ok (.next (embK k j))
+  | .ok (.next j) => .ok (.next (embKT k ts j))
   | .error _ => .error .panic
 
 def retM : Except SynErr Input → Except SynErr (Ctl Input Input)
@@ -228,11 +229,11 @@ theorem len_pos_eq (s : Bytes) : decide (len s > 0) = !s.isEmpty := by
   | nil => simp
   | cons a t => simp [len_eq]
 
-theorem comment_eq (k : Int) (i : Input) (hw : WF i) (fuel : Nat) (hf : i.remaining.length < fuel + 2) :
-    commentG isPrintI isSpaceI fuel (embK k i) = simC k (retM (readComment i)) ∧
+theorem comment_eq (k : Int) (ts : Bytes) (i : Input) (hw : WF i) (fuel : Nat) (hf : i.remaining.length < fuel + 2) :
+    commentG isPrintI isSpaceI fuel (embKT k ts i) = simC k ts (retM (readComment i)) ∧
       ∀ j, readComment i = .ok j → WF j := by
   unfold commentG readComment
-  simp only [startToken_eq]
+  simp only [startToken_eqT]
   have hws : WF (startToken i) := startToken_wf hw
   have hrem : (startToken i).remaining.length < fuel + 2 := hf
   generalize startToken i = s at hws hrem
@@ -295,9 +296,9 @@ theorem loop1_unfold (isPrint : Int → Bool) (isSpace : Int → Bool) (fuel : N
             let t18 ← (input_peekPrefix fuel in_ ([47, 42] : Bytes))
             if t18 then (throw Err.panic) else (pure (Ctl.next in_))))) else (pure (Ctl.next in_))) := rfl
 
-theorem loop1_eq (k : Int) : ∀ (mf fuel : Nat) (i : Input), WF i → i.remaining.length < mf →
+theorem loop1_eq (k : Int) (ts : Bytes) : ∀ (mf fuel : Nat) (i : Input), WF i → i.remaining.length < mf →
     i.remaining.length + 4 ≤ fuel →
-    Generated.Lex.input_readToken_loop1 isPrintI isSpaceI fuel (embK k i) = simC k (headM mf i) ∧
+    Generated.Lex.input_readToken_loop1 isPrintI isSpaceI fuel (embKT k ts i) = simC k ts (headM mf i) ∧
       (∀ j, headM mf i = .ok (.ret j) → WF j) ∧
       (∀ j, headM mf i = .ok (.next j) → WF j ∧ j.remaining.length ≤ i.remaining.length) := by
   intro mf
@@ -310,7 +311,7 @@ theorem loop1_eq (k : Int) : ∀ (mf fuel : Nat) (i : Input), WF i → i.remaini
     | succ f =>
       rw [loop1_unfold]
       unfold headM skipSpaces
-      simp only [eof_eq, peekRune_eq, show (32 : Int) = ((32 : Nat) : Int) from rfl,
+      simp only [eof_eqT, peekRune_eqT, show (32 : Int) = ((32 : Nat) : Int) from rfl,
         show (9 : Int) = ((9 : Nat) : Int) from rfl, show (13 : Int) = ((13 : Nat) : Int) from rfl, natCast_eq_natCast]
       by_cases he : i.remaining = []
       · have h1 : i.eof = true := (eof_true_iff i).2 he
@@ -321,19 +322,19 @@ theorem loop1_eq (k : Int) : ∀ (mf fuel : Nat) (i : Input), WF i → i.remaini
       · have h1 : i.eof = false := (eof_false_iff i).2 he
         simp only [h1, Bool.not_false, Bool.false_eq_true, if_false, if_true]
         rcases Bool.eq_false_or_eq_true (i.peekRune == 32 || i.peekRune == 9 || i.peekRune == 13) with hsp | hsp
-        · obtain ⟨r, i1, hM, hG, hw1, hlt, htok, _⟩ := readRune_eq k i he hw
+        · obtain ⟨r, i1, hM, hG, hw1, hlt, htok, _⟩ := readRune_eqT k ts i he hw
           simp only [hsp, if_true, hM, hG, bind_ok, ebind_ok]
           obtain ⟨hG2, hP2, hP3⟩ := ih f i1 hw1 (by omega) (by omega)
           refine ⟨hG2, hP2, ?_⟩
           intro j hj
           obtain ⟨a, b⟩ := hP3 j hj
           exact ⟨a, by omega⟩
-        · have hp1 := peekPrefix_eq k i [47, 47] f (by show 2 + 1 ≤ f; omega)
-          have hp2 := peekPrefix_eq k i [47, 42] f (by show 2 + 1 ≤ f; omega)
+        · have hp1 := peekPrefix_eqT k ts i [47, 47] f (by show 2 + 1 ≤ f; omega)
+          have hp2 := peekPrefix_eqT k ts i [47, 42] f (by show 2 + 1 ≤ f; omega)
           simp only [hsp, Bool.false_eq_true, if_false, hp1, hp2, bind_ok, tailM, h1, Bool.not_false, Bool.true_and]
           rcases Bool.eq_false_or_eq_true (i.peekPrefix [47, 47]) with hc | hc
           · simp only [hc, if_true]
-            obtain ⟨hG2, hP2⟩ := comment_eq k i hw f (by omega)
+            obtain ⟨hG2, hP2⟩ := comment_eq k ts i hw f (by omega)
             refine ⟨hG2, ?_, ?_⟩
             · intro j hj
               cases hr : readComment i with
